@@ -453,6 +453,7 @@ func refTicketHelloUnit(suite uint16) harness.Unit {
 func refNPNUnit(suite uint16) harness.Unit {
 	return harness.Unit{Name: fmt.Sprintf("scripted-peer-next-protocol/%04x", suite), Run: func(c *harness.Ctx) {
 		p := tlsk.Get()
+		gm := suite == gmtls.GMTLS_ECC_SM4_CBC_SM3 || suite == gmtls.GMTLS_ECC_SM4_GCM_SM3
 		npnExt := []byte{0x33, 0x74, 0, 0}
 		alpnExt := []byte{0, 16, 0, 5, 0, 3, 2, 'h', '2'}
 		nextProto := func(proto string) gmref.Item {
@@ -468,9 +469,14 @@ func refNPNUnit(suite uint16) harness.Unit {
 			for hi, hello := range [][]byte{nil, npnExt, alpnExt, append(append([]byte{}, alpnExt...), npnExt...)} {
 				for _, send := range []string{"", "h2", "spdy/evil"} {
 					sc := &gmtls.Config{Certificates: []gmtls.Certificate{p.RSA}, Time: tlsk.FixedTime, Rand: wire.NewRand(95), CipherSuites: []uint16{suite}, MinVersion: 0x0303, MaxVersion: 0x0303, NextProtos: serverProtos}
+					if gm {
+						sc = &gmtls.Config{GMSupport: &gmtls.GMSupport{}, Certificates: []gmtls.Certificate{p.Sign, p.Enc}, Time: tlsk.FixedTime, Rand: wire.NewRand(95), CipherSuites: []uint16{suite}, NextProtos: serverProtos}
+					}
 					var peer *gmref.Peer
 					setup := func(q *gmref.Peer) {
-						q.UseTLS()
+						if !gm {
+							q.UseTLS()
+						}
 						q.Suites = []uint16{suite}
 						q.HelloExt = hello
 						peer = q
@@ -493,7 +499,7 @@ func refNPNUnit(suite uint16) harness.Unit {
 					if peer != nil && peer.ServerExts != nil {
 						_, negotiated = peer.ServerExts[0x3374]
 					}
-					tag := fmt.Sprintf("TLS 1.2 server NextProtos=%v; ClientHello extension set %d (0 none, 1 NPN, 2 ALPN, 3 ALPN+NPN); NPN in ServerHello=%v; client sends NextProtocol %q", serverProtos, hi, negotiated, send)
+					tag := fmt.Sprintf(map[bool]string{true: "GMSSL", false: "TLS 1.2"}[gm]+" server NextProtos=%v; ClientHello extension set %d (0 none, 1 NPN, 2 ALPN, 3 ALPN+NPN); NPN in ServerHello=%v; client sends NextProtocol %q", serverProtos, hi, negotiated, send)
 					c.Add("executions", 1)
 					c.Add("transitions", 1)
 					c.DistinctS("states", tag)
@@ -504,7 +510,7 @@ func refNPNUnit(suite uint16) harness.Unit {
 					if negotiated == (send != "") {
 						verdict = refdev.MustComplete
 					}
-					r := refCfg{libIsClient: false, suite: suite, tls: true}
+					r := refCfg{libIsClient: false, suite: suite, tls: !gm}
 					judgeRef(c, r, tag, fmt.Sprintf("next-protocol:negotiated=%v:sent=%v", negotiated, send != ""), o, verdict)
 					if verdict == refdev.MustComplete && o.Lib.Complete {
 						want := ""
@@ -583,7 +589,7 @@ func refUnofferedSuiteUnit() harness.Unit {
 
 func refUnits() []harness.Unit {
 	var u []harness.Unit
-	u = append(u, refTicketHelloUnit(gmtls.GMTLS_ECC_SM4_CBC_SM3), refTicketHelloUnit(gmtls.GMTLS_ECC_SM4_GCM_SM3), refNPNUnit(gmref.SuiteAESCBC), refNPNUnit(gmref.SuiteAESGCM))
+	u = append(u, refTicketHelloUnit(gmtls.GMTLS_ECC_SM4_CBC_SM3), refTicketHelloUnit(gmtls.GMTLS_ECC_SM4_GCM_SM3), refNPNUnit(gmref.SuiteAESCBC), refNPNUnit(gmref.SuiteAESGCM), refNPNUnit(gmtls.GMTLS_ECC_SM4_CBC_SM3), refNPNUnit(gmtls.GMTLS_ECC_SM4_GCM_SM3))
 	for _, lc := range []bool{true, false} {
 		for _, suite := range []uint16{gmtls.GMTLS_ECC_SM4_CBC_SM3, gmtls.GMTLS_ECC_SM4_GCM_SM3} {
 			for _, auth := range []bool{false, true} {
